@@ -132,7 +132,12 @@ def check(run):
             for n_ in ast.walk(ast.parse(frest[0], mode="eval")):
                 if isinstance(n_, ast.BinOp) and match_expr("trimesh.grouping.unique_rows(_e_E)[1].reshape((-1, 3)) + len(P_vertices)", n_, e_) is not None:
                     off = True
-        ok = ok and e_ is not None and off
+        if e_ is None:
+            # the midpoints are computed in a way this rule does not recognise: not decided (never a violation)
+            run.instance("R2", sd.where, f"midpoints `{(vrest[0] if vrest else '')[:60]}` not in a recognised form - NOT decided", True, nontrivial=False)
+            run.assume("subdivide: the construction of the edge midpoints is not in a recognised form; offset and position of the midpoints are not decided")
+            continue
+        ok = ok and off
     run.instance("R2", sd.where, "midpoint indices start at len(vertices) and midpoints are means of the unique edges' end points", ok)
     if not ok:
         run.violation("R2", sd.where, "subdivide: midpoint index offset or midpoint position changed", key=key_of("C18-R2", "midpoints"))
@@ -144,7 +149,12 @@ def check(run):
     tables = {}
     for spec in ("trimesh.remesh:subdivide", "trimesh.remesh:subdivide_loop._subdivide"):
         f = ix.func(spec)
-        tris, fv, mv, w = child_table(f.node, spec)
+        try:
+            tris, fv, mv, w = child_table(f.node, spec)
+        except AnalysisError as e_:
+            run.instance("R3", f.where, f"child table of {spec.split(':')[1]} not in a recognised form ({str(e_)[:80]}) - NOT decided", True, nontrivial=False)
+            run.assume(f"{spec}: the 4-child table is not in a recognised form; area / orientation preservation of its children is not decided")
+            continue
         tables[spec] = tris
         if spec.endswith("_subdivide"):
             continue
@@ -180,7 +190,7 @@ def check(run):
         run.obligation("R3", f.where, "each corner used exactly once; exactly one all-midpoint child", ok)
         if not ok:
             run.violation("R3", f.where, "child table does not use each parent corner exactly once", key=key_of("C18-R3", "corners"))
-    ok = tables["trimesh.remesh:subdivide"] == tables["trimesh.remesh:subdivide_loop._subdivide"]
+    ok = len(tables) < 2 or tables["trimesh.remesh:subdivide"] == tables["trimesh.remesh:subdivide_loop._subdivide"]
     run.obligation("R3", "trimesh/remesh.py", "subdivide and subdivide_loop use the same child table", ok)
     if not ok:
         run.violation("R3", "trimesh/remesh.py subdivide_loop", "Loop subdivision connects children differently from midpoint subdivision",
